@@ -189,6 +189,25 @@ CLAIMED = {
              "the model is the correspondence. The objective-gap oracle treats a still-shrinking gap as inconclusive (no alarm).",
         technique="Lean 4 proof (normal equations, conjugates, KKT fixed points) + translator + step-by-step differential correspondence",
         design="DESIGN.md §3 C14, §9"),
+    "C08": dict(
+        text="Lean 4 theorems about the formulas and branch choices the translator extracts from sigpy/conv.py "
+             "(Gen/ConvFormulas.lean: output length per mode, the valid-mode admission test, the adjoint buffer lengths, which "
+             "correlate mode each adjoint branch picks): conv_out_len_full / conv_out_len_valid / conv_out_len_valid_any (p is "
+             "exactly the number of samples 0, s, 2s, ... below scipy's m+n-1 resp. |m-n|+1, for all m, n, s >= 1 and either size "
+             "order), admit_iff / admit_cases, adj_buf_len, data/filt_adj_shift(_nd) (with the code's mode choice the correlate "
+             "shift equals the convolution offset, both modes, both size orders, per axis with the global all() decision), and over "
+             "any commutative *-ring: conv1_entries, data_adj_entries / filt_adj_entries (the adjoints as computed have the "
+             "transposed, conjugated entries of the forward map), data_adjoint / filter_adjoint (1-D, all strides), _mc (batch and "
+             "channels), _2d, adjoint_nd + mkAxes_ok + data/filter_adjoint_nd_code (any D by recursion over axes), "
+             "gi_model_is_star_ring (the executed Gaussian-integer type is such a ring). Tie: translator + exhaustive exact "
+             "correspondence (D=1 all lengths 1-5 x strides x modes x channel configs x batch; D=2 grid; D=3,4 sampled; functions "
+             "and all six Linop classes, outputs or error kinds).",
+        note="Trusted: Lean kernel; translator gen_c08; scipy.signal.convolve/correlate index conventions (incl. the operand swap "
+             "in valid mode) and numpy slicing/reshape are hand-written contracts checked exactly against scipy; the (b, c_o, c_i) "
+             "loop wiring is not translator-extracted; N-D x batch x channels combination and all error behaviour are validated by "
+             "correspondence only (N-D identity is single-channel; channels proved in 1-D).",
+        technique="Lean 4 proof over translator-generated formulas/branches + exhaustive exact differential correspondence",
+        design="DESIGN.md §3 C08, §9"),
 }
 NOT_YET = "check not built yet in this round (framework exists; see DESIGN.md §8 build order)"
 
